@@ -121,6 +121,12 @@ class Gen:
         c = r.random()
         if c < 0.35:
             return r.choice([0, 1, 2, 3, 5, 7, 10, 100])
+        narrower = [w for w in (8, 16, 32, 64) if w < BITS[t]]
+        if narrower and c < 0.43:
+            # a value that would be negative in a narrower signed type (the top bit of that width set, everything above clear):
+            # extending it must not look at that bit
+            w = r.choice(narrower)
+            return r.choice([1 << (w - 1), (1 << w) - 1, r.randrange(1 << (w - 1), 1 << w)])
         if c < 0.55:
             v = r.choice([lo, hi, lo + 1, hi - 1, -1, hi // 2, hi // 2 + 1])
         elif c < 0.75:
